@@ -245,7 +245,9 @@ func (db *Database) BuildUniversalIndex() {
 func (db *Database) buildTFIDFSearcher() {
 	if len(db.Commands) == 0 {
 		db.tfidf = nil
-		db.cmdIndex = nil
+		// empty but non-nil: marks a database that maintains a re-ranker, so that it is
+		// built once commands are added (see the lazy rebuild in SearchUniversal)
+		db.cmdIndex = map[*Command]int{}
 		return
 	}
 	cmds := make([]nlp.Command, len(db.Commands))
@@ -268,6 +270,11 @@ func (db *Database) SearchUniversal(query string, options SearchOptions) []Searc
 	if db.uIndex == nil || db.uIndex.N != len(db.Commands) {
 		// (Re)build lazily if needed
 		db.BuildUniversalIndex()
+		if db.tfidf != nil || db.cmdIndex != nil {
+			// the command list changed under a loaded database: the re-ranker and the
+			// pointer-keyed command index are stale as well
+			db.buildTFIDFSearcher()
+		}
 	}
 
 	if options.Limit <= 0 {
